@@ -9,7 +9,7 @@ SPEC = {
     'theorems': ['C27_main_only_valid', 'C27_served_was_delivered',
                  'C27_rejected_no_effect_refuted', 'C27_rejected_no_effect_partial', 'C27_rejected_no_effect_nonvacuous',
                  'C27_no_poison_refuted', 'C27_no_poison_partial', 'C27_no_poison_nonvacuous',
-                 'C27_rejected_invisible_refuted', 'C27_no_panic_refuted'],
+                 'C27_rejected_invisible_refuted', 'C27_no_panic_refuted', 'C27_valid_refines_C25'],
     'allowed_axioms': [],
     'shard': 16,
     'rule': 'a factory test node builds an executed block tree (trunk t1..t14, branch S off t11 with a heavy s13, branch R '
@@ -23,7 +23,7 @@ SPEC = {
             'BlockChain.ProcessBlock on the broadcast / sync / download path: A mutant at the tip then the genuine block '
             'then its child; B mutant as unexecuted side block, genuine block, branch overtakes; C mutant heavy enough to '
             'reorganise; D mutant waiting as orphan; E orphan cascade; H download-path node deleted under its child; '
-            'F guarded random histories (genuine blocks in near-order with gaps and re-deliveries plus new-hash mutants '
+            '(kinds guarded/...-refused-header: wrong height / unknown parent, never executed); F guarded random histories (genuine blocks in near-order with gaps and re-deliveries plus new-hash mutants '
             'below the margin, never orphaned); G unrestricted random histories. Observed per delivery: (isMain, '
             'isOrphan, error class incl. panic), tip, its total difficulty, body served under the delivered hash; at the '
             'end hash at every height, body served under every hash of the case, GetTx of every known transaction, '
@@ -54,7 +54,7 @@ SPEC = {
                       'chain only holds blocks whose stored/served body passed the checks, and every served body was delivered '
                       'under that hash; proved per delivery: a rejected block that cannot start a reorganisation leaves the '
                       'best chain unchanged; a valid block whose hash was not seen before is never answered "exists" and its '
-                      'body is served. The Go node agrees with the model on every generated history, and outside the four '
+                      'body is served; with only valid deliveries the model coincides with the chain-selection model of C25 (so C25_converges applies). The Go node agrees with the model on every generated history, and outside the four '
                       'signatures with the reference "rejected blocks never arrived"',
         'level_note': 'validity is an oracle; hashes/bodies abstract; fork choice as in C25; finalizer static; capacity '
                       'limits not reached',
